@@ -27,4 +27,5 @@ fdc3243 C06 summary estimate inf with three pre-period points
 da67930 C09 integer-valued float parameters crash the searches
 cee3f56 C18 TBRiROAS reports with declared column names KeyError
 bd4ec18 C09 greedy search TypeError for n_test >= 98
+450d608 C18 effect-series report with a longer history of unassigned geos
 LIST
